@@ -48,9 +48,9 @@ fn process_retracted(
             };
             to_workers.entry(worker_id).or_default().push(task_id);
             task.state = TaskRuntimeState::Retracting { worker_id };
-            worker_map
-                .get_worker_mut(worker_id)
-                .remove_prefill_task(task_id);
+            let worker = worker_map.get_worker_mut(worker_id);
+            worker.remove_prefill_task(task_id);
+            worker.retract_started();
         }
         for (worker_id, task_ids) in to_workers {
             comm.send_worker_message(
@@ -330,7 +330,14 @@ fn task_running(
             // By removing redirections first, we unassign the task so we can later assign it back
             // In theory, we could optimize this special case by doing nothing, but it should be quite rare
             // So I prefer to keep the code simple.
-            try_remove_redirection(worker_map, scheduler_state, request_map, task_queues, task);
+            try_remove_redirection(
+                worker_map,
+                scheduler_state,
+                request_map,
+                task_queues,
+                task,
+                worker_id,
+            );
             let rqv = request_map.get(task.resource_rq_id);
             worker_map
                 .get_worker_mut(worker_id)
@@ -421,6 +428,7 @@ fn task_reject(
                 log::debug!("Rejection from invalid worker");
                 return false;
             }
+            worker.retract_resolved();
             if let Some((target_id, rv_id)) = scheduler_state.redirects.remove(&task_id) {
                 log::debug!("Transfering to {target_id}");
                 task.state = TaskRuntimeState::Assigned {
@@ -471,6 +479,7 @@ pub(crate) fn on_retract_response(
 ) {
     let CoreSplitMut {
         task_map,
+        worker_map,
         scheduler_state,
         ..
     } = core.split_mut();
@@ -486,6 +495,7 @@ pub(crate) fn on_retract_response(
             log::debug!("Retracted task {task_id} is in invalid state");
             continue;
         }
+        worker_map.get_worker_mut(worker_id).retract_resolved();
         if let Some((target_id, rv_id)) = scheduler_state.redirects.remove(task_id) {
             log::debug!("Task {task_id} retracted and redirected to {target_id}");
             task.state = TaskRuntimeState::Assigned {
@@ -554,7 +564,14 @@ fn task_finished(
             }
             TaskRuntimeState::Retracting { worker_id: w_id } => {
                 assert_eq!(*w_id, worker_id);
-                try_remove_redirection(worker_map, scheduler_state, request_map, task_queues, task);
+                try_remove_redirection(
+                    worker_map,
+                    scheduler_state,
+                    request_map,
+                    task_queues,
+                    task,
+                    worker_id,
+                );
             }
             TaskRuntimeState::Prefilled { .. }
             | TaskRuntimeState::Waiting { .. }
@@ -601,7 +618,11 @@ fn try_remove_redirection(
     request_map: &ResourceRqMap,
     task_queues: &mut TaskQueues,
     task: &Task,
+    retracted_from: WorkerId,
 ) {
+    worker_map
+        .get_worker_mut(retracted_from)
+        .retract_resolved();
     if let Some((worker_id, rv_id)) = scheduler_state.redirects.remove(&task.id) {
         let worker = worker_map.get_worker_mut(worker_id);
         let rq = request_map.get(task.resource_rq_id).get(rv_id);
@@ -669,6 +690,7 @@ fn task_failed(
                                 request_map,
                                 task_queues,
                                 task,
+                                worker_id,
                             );
                         }
                         _ => {}
@@ -765,6 +787,7 @@ pub(crate) fn on_cancel_tasks(core: &mut Core, comm: &mut impl Comm, task_ids: &
                         request_map,
                         task_queues,
                         task,
+                        worker_id,
                     );
                     running_ids.entry(worker_id).or_default().push(task_id);
                     comm.ask_for_scheduling();
